@@ -31,7 +31,7 @@ ASSUMPTIONS = ['in-memory readers registered after the two default readers', 'sc
 WITNESSES = ['later_binding_overrides_across_include', 'binding_after_include_wins', 'depth3', 'tree_mirrored',
              'imports_per_file', 'missing_include_ioerror', 'location_order', 'reader_order_within_location',
              'absolute_bypasses', 'package_relative', 'namespace_package_location', 'files_then_bindings_then_finalize',
-             'finalize_disabled', 'unknown_default_error', 'real_files', 'repeated_inclusion']
+             'finalize_disabled', 'unknown_default_error', 'real_files', 'repeated_inclusion', 'second_resolution_fresh', 'location_registered_twice']
 
 MEM1, MEM2 = {}, {}
 SCRATCH = [None]
@@ -302,6 +302,7 @@ LOCS = ['locA', 'locB', 'locC']
 
 
 def run_resolve_case(case, res):
+  """case = ['resolve', registration order (names; may repeat; '' = current directory), cells [[location, reader]]]"""
   _, order, cells = case
   desc = list(case)
   harness.hard_reset()
@@ -310,68 +311,104 @@ def run_resolve_case(case, res):
   base = os.path.join(scratch(), 'res')
   shutil.rmtree(base, ignore_errors=True)
   os.makedirs(base)
-  locs = [''] + [os.path.join(base, l) for l in order]
-  for l in order:
-    os.makedirs(os.path.join(base, l))
-    gin.add_config_file_search_path(os.path.join(base, l))
+
+  def prefix(name):
+    return '' if name == '' else os.path.join(base, name)
+  for name in set(order) - {''}:
+    os.makedirs(prefix(name))
+  for name in order:
+    gin.add_config_file_search_path(prefix(name))
+  locs = [''] + list(order)                      # registration order, current directory first
   res.case(tuple(map(repr, case)), len(cells) >= 2)
-  present = []
-  for (li, reader) in cells:
-    if li >= len(locs):
-      continue
-    path = os.path.join(locs[li], 'cfg.gin')
-    text = "c14.f.x = 'cell:%d:%s'\n" % (li, reader)
+  present = {}
+  for (name, reader) in cells:
+    if name not in locs or (name == '' and reader == 'real'):
+      continue                                   # the current directory is not written to
+    path = os.path.join(prefix(name), 'cfg.gin')
+    text = "c14.f.x = 'cell:%s:%s'\n" % (name, reader)
     if reader == 'real':
-      if li == 0:
-        continue  # the current directory is not written to
       with open(path, 'w') as fh:
         fh.write(text)
     elif reader == 'm1':
       MEM1[path] = text
     else:
       MEM2[path] = text
-    present.append((li, ['real', 'm1', 'm2'].index(reader)))
-  try:
-    gin.parse_config_file('cfg.gin')
-    got = F()[0]
-    out = 'ok'
-  except IOError as e:
-    got, out = e, 'IOError'
-  except Exception as e:  # pylint: disable=broad-except
-    got, out = e, type(e).__name__
+    present[(name, reader)] = path
+
+  def winner():
+    for name in locs:
+      for reader in ('real', 'm1', 'm2'):
+        if (name, reader) in present:
+          return (name, reader)
+    return None
+
+  def resolve():
+    try:
+      gin.parse_config_file('cfg.gin')
+      return F()[0], 'ok'
+    except IOError as e:
+      return e, 'IOError'
+    except Exception as e:  # pylint: disable=broad-except
+      return e, type(e).__name__
+  got, out = resolve()
   res.outcome('resolve:' + out)
-  if not present:
+  first = winner()
+  if first is None:
     if out != 'IOError':
       res.violation('missing_file_not_ioerror', '%r: nothing readable -> %s %r' % (desc, out, got), desc)
-    elif repr(locs) not in str(got):
-      res.violation('missing_file_message', '%r: IOError does not list the locations %r: %s' % (desc, locs, got), desc)
+    elif repr([prefix(n) for n in locs]) not in str(got):
+      res.violation('missing_file_message', '%r: IOError does not list the locations %r: %s' %
+                    (desc, [prefix(n) for n in locs], got), desc)
     elif gin.config_str() != '':
       res.violation('missing_file_applied_something', '%r: config not empty after IOError' % (desc,), desc)
     return
-  first = min(present)
-  want = 'cell:%d:%s' % (first[0], ['real', 'm1', 'm2'][first[1]])
+  want = 'cell:%s:%s' % first
   if out != 'ok' or got != want:
-    res.violation('resolution_order', '%r: locations %r, cells present %r: got %r, expected %r' %
+    res.violation('resolution_order', '%r: registration order %r, cells present %r: got %r, expected %r' %
                   (desc, locs, sorted(present), got, want), desc)
     return
-  if len({p[0] for p in present}) >= 2:
+  # second resolution in the same process after the winning cell disappeared: nothing may be remembered
+  path = present.pop(first)
+  if first[1] == 'real':
+    os.remove(path)
+  elif first[1] == 'm1':
+    del MEM1[path]
+  else:
+    del MEM2[path]
+  cfg._CONFIG.clear()
+  got2, out2 = resolve()
+  nxt = winner()
+  want2 = ('cell:%s:%s' % nxt) if nxt else None
+  if (nxt and (out2 != 'ok' or got2 != want2)) or (not nxt and out2 != 'IOError'):
+    res.violation('resolution_after_removal', '%r: after removing the winning cell %r the second parse gave %s %r, '
+                  'expected %r' % (desc, first, out2, got2, want2 or 'IOError'), desc)
+    return
+  res.w('second_resolution_fresh')
+  if len({n for n, _ in cells if n in locs}) >= 2:
     res.w('location_order')
-  if sum(1 for p in present if p[0] == first[0]) >= 2:
+  if sum(1 for n, _ in cells if n == first[0]) >= 2:
     res.w('reader_order_within_location')
+  if len(set(order)) < len(order) or '' in order:
+    res.w('location_registered_twice')
 
 
 def resolve_cases(tier):
+  orders = []
   for k in range(0, 4):
-    for order in itertools.permutations(LOCS, k):
-      nl = k + 1
-      cells = [(li, r) for li in range(nl) for r in ('real', 'm1', 'm2') if not (li == 0 and r == 'real')]
-      if len(cells) > 8 and tier == 'quick':
-        subsets = [c for n in (0, 1, 2, len(cells)) for c in itertools.combinations(cells, n)]
-      else:
-        subsets = [c for n in range(len(cells) + 1) for c in itertools.combinations(cells, n)] \
-            if len(cells) <= 8 else [c for n in (0, 1, 2, 3, len(cells)) for c in itertools.combinations(cells, n)]
-      for cs in subsets:
-        yield ['resolve', list(order), [list(c) for c in cs]]
+    orders += [list(o) for o in itertools.permutations(LOCS, k)]
+  # a location registered again later keeps its first position; the current directory stays first
+  orders += [['locA', 'locB', 'locA'], ['locB', 'locA', 'locB'], ['locA', 'locA', 'locB'], ['locA', '', 'locB'],
+             ['locA', ''], ['locB', 'locA', 'locA', 'locB'], ['locA', 'locB', 'locC', 'locA']]
+  for order in orders:
+    names = [''] + sorted(set(order) - {''})
+    cells = [(n, r) for n in names for r in ('real', 'm1', 'm2') if not (n == '' and r == 'real')]
+    if len(cells) <= 8:
+      subsets = [c for n in range(len(cells) + 1) for c in itertools.combinations(cells, n)]
+    else:
+      sizes = (0, 1, 2, len(cells)) if tier == 'quick' else (0, 1, 2, 3, len(cells))
+      subsets = [c for n in sizes for c in itertools.combinations(cells, n)]
+    for cs in subsets:
+      yield ['resolve', list(order), [list(c) for c in cs]]
 
 
 def run_special_case(case, res):
